@@ -129,11 +129,14 @@ Section Lexer.
   Definition line_fuel (text : line) : nat := (2 * length text + 2)%nat.
 
   (* if cur_span_symbol is None and text_line: prev_end_pos = SrcPos(src_name, line_id, 1) *)
+  (* [line_start_reset] (gen/C04_Consts.v) records whether this statement is present in the source *)
   Definition line_start (lid : Z) (text : line) (st : lstate) : lstate :=
-    match ls_span st, text with
-    | None, _ :: _ => mkLS (lid, 1) None
-    | _, _ => st
-    end.
+    if line_start_reset then
+      match ls_span st, text with
+      | None, _ :: _ => mkLS (lid, 1) None
+      | _, _ => st
+      end
+    else st.
 
   (* for line_id, text_line in enumerate(lines, start=1) *)
   Fixpoint lex_lines (lid : Z) (ls : list line) (st : lstate) : lexres (list token * lstate) :=
